@@ -154,7 +154,8 @@ def all_modes():
 
 
 ENTRIES = ['run', 'call', 'evaluate', 'import', 'run-code']
-ENVS = ['plain', 'outer-trace', 'outer-patchers', 'before-and-after-code', 'time-module-blocked', 'time-module-replaced', 'failpoint-traceback', 'failpoint-feedback']
+ENVS = ['plain', 'outer-trace', 'outer-patchers', 'before-and-after-code', 'time-module-blocked', 'time-module-replaced', 'html-formatter', 'text-formatter',
+        'failpoint-traceback', 'failpoint-feedback']
 
 
 class InjectedFailure(RuntimeError):
@@ -511,6 +512,10 @@ def execute_case(ctx, which, case, state=None):
         sandbox.block_module('time')
     elif envname == 'time-module-replaced':
         sandbox.mock_module('time', {'sleep': lambda seconds: None, 'time': lambda: 0.0}, 'time')
+    elif envname in ('html-formatter', 'text-formatter'):
+        # the environment's choice of formatter: the failure's message and traceback are rendered through it
+        from pedal.core import formatting
+        report.format = formatting.HtmlFormatter() if envname == 'html-formatter' else formatting.TextFormatter()
     with Env(envname):
         return _measured(ctx, which, case, sandbox, report, files, inputs, n_rt_before)
 
@@ -743,7 +748,7 @@ def case_matrix(ctx, which):
                     if m['kind'] == 'timeout' and (not threaded or which != 'C05'):
                         continue        # only a threaded execution has a time limit (and only C05 looks at what is left behind)
                     for pos in ('first', 'after-failure', 'after-ok', 'after-clear_context', 'the-same-execution-before'):
-                        for env in (ENVS if which == 'C05' else ENVS[:6]):
+                        for env in (ENVS if which == "C05" else ENVS[:8]):
                             if env.startswith('failpoint') and m['kind'] in ('ok',):
                                 continue
                             c = dict(m)
